@@ -160,6 +160,25 @@ def rule_OD3(rep, prog, k):
                                 "the library still monitors the fd, the stale registration outlives close(), and a later source on the same fd number never fires"
                                 % ("some" if readers else "no", "some" if writers else "no", disarmed, "issues" if deleted else "does not issue"),
                                 sample={"readers": readers, "writers": writers, "disarmed": disarmed, "del": want})
+    # ... and it always reports "done": for a muxed unote `false` means "deferred, an event will finish it" - nothing will (the registration is gone)
+    fnu = prog.fn("_dispatch_unote_unregister_muxed")
+    rets = [b.term for b in fnu.blocks if b.term.op == "ret" and b.term.ops]
+    okr = bool(rets)
+    for r_ in rets:
+        vals = []
+        def coll(o, depth=0):
+            i_ = fnu.inst(o) if o[0] == "i" else None
+            if i_ is not None and i_.op == "phi" and depth < 4:
+                for v_, frm in i_.ops:
+                    coll(v_, depth + 1)
+            else:
+                vals.append(o)
+        coll(r_.ops[0])
+        okr = okr and all(v_[0] == "c" and v_[1] == 1 for v_ in vals)
+    rep.require(rid, okr, rets[0].loc if rets else fnu.file, fnu.name, "muxed-unregister-reports-deferred",
+                "_dispatch_unote_unregister_muxed can return something other than true: the epoll back end completes every unregistration synchronously, and `false` "
+                "tells the source to wait for an event (DSF_NEEDS_EVENT) that can no longer arrive - a later cancel is swallowed, the cancel handler never runs and "
+                "dispatch_source_cancel_and_wait never returns", sample={"returns": len(rets)})
     fn = prog.fn("_dispatch_source_refs_finalize_unregistration")
     rep.saw(fn)
     sc = calls_named(fn, "_dispatch_queue_atomic_flags_set_and_clear_orig")
@@ -169,6 +188,34 @@ def rule_OD3(rep, prog, k):
     rep.require(rid, bool(ok), fn.file, fn.name, "finalize-shape",
                 "_dispatch_source_refs_finalize_unregistration must atomically set DSF_DELETED, wake cancel waiters and release the registration reference",
                 sample={"set_deleted": len(sc), "wake": len(wk), "release": len(rl)})
+
+
+def rule_TB8(rep, srcdir, tier):
+    import re, os
+    rid = rep.rule("C16-TB8", "the source / queue flag space (DQF_* / DSF_* in dq_atomic_flags) assigns every flag its own single bit: a collision makes one state mean "
+                   "another (DSF_CANCEL_WAITER read as DSF_NEEDS_EVENT: the wake-up of dispatch_source_cancel_and_wait is taken for a spurious one and dropped); the "
+                   "finaliser's wake-up releases ALL waiting cancel_and_wait callers", floor=10)
+    from dqsa import build as _b, ir as _ir
+    src = srcdir or os.path.join(_b.REPO, "src")
+    try:
+        txt = open(os.path.join(src, "queue_internal.h")).read()
+    except OSError:
+        rep.unknown(rid, "anchor vanished: queue_internal.h not readable")
+        return
+    m = re.search(r"DISPATCH_ENUM\(dispatch_queue_flags,(.*?)\n\);", txt, re.S)
+    names = sorted(set(re.findall(r"\b(D[QS]F_[A-Z0-9_]+)\s*=", m.group(1)))) if m else []
+    names = [n_ for n_ in names if "MASK" not in n_ and not n_.endswith("_NONE")]
+    if len(names) < 10:
+        rep.unknown(rid, "fewer than 10 queue / source flags found (%d)" % len(names))
+        return
+    vals = consts.get(names, srcdir=srcdir, unit="source")
+    for n_, v in sorted(vals.items()):
+        clash = sorted(m_ for m_, w in vals.items() if m_ != n_ and (w & v))
+        rep.require(rid, v != 0 and (v & (v - 1)) == 0 and not clash, "src/queue_internal.h", n_, "flag-collision:%s" % n_,
+                    "%s = %#x %s" % (n_, v, ("shares a bit with %s" % ", ".join(clash)) if clash else "is not a single bit"), sample={"flag": n_, "value": hex(v)})
+    from .sync_common import rule_wake_all
+    pl = _ir.Program(_b.facts_for(["shims/lock"], srcdir=srcdir))
+    rule_wake_all(rep, rid, pl, "_dispatch_wake_by_address")
 
 
 def rule_MP4(rep, prog, k):
@@ -361,6 +408,8 @@ def run(rep, tier="quick", srcdir=None, only=None):
         rule_OD3(rep, prog, k)
     if want("C16-MP4"):
         rule_MP4(rep, prog, k)
+    if want("C16-TB8"):
+        rule_TB8(rep, srcdir, tier)
     if want("C16-MP5"):
         rule_MP5(rep, prog, k)
     if want("C16-MP6"):
